@@ -69,6 +69,8 @@ def run(ctx: Ctx) -> dict:
             ops.append({"op": "iban.from_bban", "cc": cps(cc), "bban": cps(b), "ai": False, "vb": False})
             for dd in range(100):
                 ops.append({"op": "iban.new", "t": cps(f"{cc}{dd:02d}{b}"), "vb": False})
+    import fuzz
+    ops = fuzz.extend(ctx, ops, "c02", n_seeds=1200, quick=3000, accept=lambda o: o["op"] == "iban.from_bban")
     events = calls.execute(ctx, ops, "c02")
     mism = calls.validate(ctx, "TraceCalls", events, env, "c02", per_shard=25000)
     calls.report(ctx, mism, CLAUSES)
